@@ -20,15 +20,15 @@ RULE = ("Hypothesis: bar-grid pieces of 1-6 planned bars with 1-4 tracks; meta_t
         "change, cut note or unequal track lengths). Distinct by case digest.")
 ASSUMPTIONS = ["signature/key changes fall on bar boundaries of the meta track (the statement's precondition)",
                "no event sits exactly on the final tick of a track that ends on a bar line (would start one more, empty, bar)"]
-TIERS = {"quick": dict(shards=8, examples=1500), "thorough": dict(shards=16, examples=15000)}
+TIERS = {"quick": dict(shards=8, examples=1500), "thorough": dict(size=2, shards=16, examples=15000)}
 
 SIGS = [(4, 4), (3, 4), (2, 4), (6, 8), (3, 8), (5, 8), (2, 2), (1, 4), (12, 8), (7, 8), (4, 4), (2, 8)]
 DEFAULT_VALUES = [24, 12, 6, 16, 8, 4, 36, 18, 9]
 
 
 @st.composite
-def _case(draw):
-    nbars = draw(st.integers(1, 6))
+def _case(draw, size=1):
+    nbars = draw(st.integers(1, 6 + 3 * (size - 1)))
     ntracks = draw(st.integers(1, 4))
     m = draw(st.integers(0, ntracks - 1))
     requant = draw(st.booleans())
@@ -78,7 +78,8 @@ def _case(draw):
 
 
 def strategy(params, shard, nshards):
-    return _case()
+    # thorough tier: odd shards draw larger cases (size 2), even shards keep the small, dense ones
+    return _case(size=params.get("size", 1) if shard % 2 else 1)
 
 
 def check(case):
